@@ -37,8 +37,15 @@ def main():
     from concurrent.futures import ThreadPoolExecutor
     lock = threading.Lock()
     jobs = int(args[args.index("-j") + 1]) if "-j" in args else 1
+    counter = [0]
     def one(d):
         name = os.path.basename(d)
+        with lock:
+            counter[0] += 1
+            if counter[0] % 20 == 1:
+                # every scratch copy compiles the module afresh: keep the Go build
+                # cache from filling the disk (it reached > 100 GB once)
+                sh("go clean -cache", VERIF)
         meta = json.load(open(os.path.join(d, "meta.json")))
         prop = meta["property"]
         tmp = tempfile.mkdtemp(prefix="govc-seed-")
